@@ -19,7 +19,15 @@ PROP = {
              "reached), its reported hash must be the hash of a cell of the block and every occurrence of the same record must report "
              "the same hashes; a PRNG sample (size-capped) is re-decoded standalone and compared with the in-block values; real "
              "transactions additionally with flipped tag / header field / truncated root / dropped reference / HashUpdate tag and with "
-             "their in_msg replaced by synthetic messages, pruned, library or junk cells. Each case is decoded twice by the real code "
+             "their in_msg replaced by synthetic messages, pruned, library or junk cells. HISTORIES on one tlb.Transaction / tlb.Message "
+             "variable (c16.htx, c16.hmsg): 2..3 sources (real transactions, synthetic messages, some that fail to decode before or after "
+             "the hash is taken), decode A, 0..2 calls of Hash / SourceBoc / Hash(true) in either order, decode B into the SAME variable "
+             "(tlb.Unmarshal or one shared Decoder with hasher), calls again, continue on a struct copy, the caller overwriting slices it "
+             "was given; fixed schedules decode-A/SourceBoc/decode-B/SourceBoc and SourceBoc/overwrite/SourceBoc first. Oracles: after every "
+             "successful decode each observable equals that of a fresh variable decoding the same cell, SourceBoc parses back to the hash "
+             "reported at that moment, copies report the same, slices handed out earlier are never changed by later calls and overwriting "
+             "them changes no later answer; the model replays the history on its record of what UnmarshalTLB writes. "
+             "Each case is decoded twice by the real code "
              "(tlb.Unmarshal and tlb.NewDecoder() with a pre-warmed hasher cache); compared with the extracted model (Gallina SHA-256): "
              "ok/err, kind, Hash(false), Hash(true), init form, body placement/bits/reference count, re-encoded source and destination, "
              "transaction hash, in_msg hashes, SourceBoc bytes and its parse-back. Oracles on the implementation: hash = source cell "
@@ -35,12 +43,16 @@ PROP = {
                     "from the TL-B scheme from (destination without addr_std anycast, body bits, body references) only, so Hash(true) is "
                     "its representation hash, is independent of source, import fee, init and body placement; decoded addresses re-encode "
                     "to exactly the bits read; for a collision-free H equal Hash(true) forces equal canonical destination bits, body bits, "
-                    "reference count and reference hash material; Hash(true)=Hash(false) for internal / external-out messages."),
+                    "reference count and reference hash material; Hash(true)=Hash(false) for internal / external-out messages. Histories: a "
+                    "successful decode into a variable in ANY prior state yields one and the same state (hash, captured source cell, fields "
+                    "of the pure decode function), hence every later observable is that of a fresh decode; the design that keeps the "
+                    "serialised source in the variable without clearing it on decode is refuted by decode A, SourceBoc, decode B, SourceBoc."),
     'assumptions': ["SHA-256 is a parameter H of every theorem; the converse direction assumes H injective (stated in the theorem)",
                     "dictionary decoding (extra currencies, StateInit.library, out_msgs) and TransactionDescr decoding are an arbitrary acceptance oracle in the theorems; in the correspondence run the first two are tongo's own Hashmap decoder evaluated by the harness on every cell of the case, the last two are only exercised on real transactions",
                     "no library resolver is configured (Decoder.WithLibraryResolver unused): a library cell in decoder position is an error",
                     "bit strings / cells are the ideal objects of C06; SourceBoc's byte string is tied to the C01 layout by the per-output parse-back check and byte-exact comparison with the serialiser model, not by a theorem about the reordering heuristic",
-                    "as the code stands Hash(true) keeps the anycast of an addr_var destination and returns 32 zero bytes when the canonical cell exceeds the depth limit (both modelled and stated as theorems, not alarmed on); Hash(true) clears the receiver's addr_std anycast (mutation visible only through aliasing, not modelled)"],
+                    "as the code stands Hash(true) keeps the anycast of an addr_var destination and returns 32 zero bytes when the canonical cell exceeds the depth limit (both modelled and stated as theorems, not alarmed on); Hash(true) clears the receiver's addr_std anycast (mutation visible only through aliasing, not modelled)",
+                    "byte slices are values in the model: that SourceBoc returns independent copies (no aliasing between calls, copies of the variable and the caller's buffer) is established by the harness oracle on the implementation only"],
 }
 
 META = {
@@ -53,7 +65,7 @@ META = {
              "bit-exactly, and under collision-freeness a different destination encoding, body bit string or reference count gives a "
              "different normalised hash. The extracted model (Gallina SHA-256) reproduces the implementation's hashes, decode "
              "outcomes and SourceBoc bytes on synthetic equivalence classes, malformed inputs and on the messages/transactions of all "
-             "testdata blocks (~430 cases quick, ~15k thorough)."),
+             "testdata blocks, and on call histories that reuse one variable as decoding target (~460 cases quick, ~16k thorough)."),
     'design_ref': 'DESIGN.md §6 C16',
     'note': ("No defect found. Observations stated as theorems: addr_var anycast is not dropped by Hash(true); Hash(true) returns the "
              "zero hash when the canonical cell cannot be hashed. Trusted: Coq kernel, extraction, drivers, Go harness, the C02 hash "
